@@ -317,7 +317,7 @@ class Fn:
                 r = "(inb %s %s)" % (x, self.state[sp][0])
                 return r if isinstance(op, ast.In) else "(negb %s)" % r
         if isinstance(op, (ast.In, ast.NotIn)):
-            if tx == "str" and isinstance(bnode, ast.Tuple) and all(isinstance(c, ast.Constant) and isinstance(c.value, str) for c in bnode.elts):
+            if tx == "str" and isinstance(bnode, (ast.Tuple, ast.List)) and all(isinstance(c, ast.Constant) and isinstance(c.value, str) for c in bnode.elts):
                 r = "(existsb (str_eqb %s) [%s])" % (x, "; ".join(s_lit(c.value) for c in bnode.elts))
                 return r if isinstance(op, ast.In) else "(negb %s)" % r
             if tx == "str" and ty == "args":
@@ -879,6 +879,25 @@ SPECS = [
                 "build_metric_action": ("gen_build_metric_action", ["str", "args", "metrics"], "option gaction"),
                 "build_span_action": ("gen_build_span_action", ["str", "args"], "option gaction"),
                 "Trigger": ("mk_trigger", ["loc", "list gaction"], "gtrigger")}),
+    # ---- pending callbacks (C15)
+    dict(group="Callbacks", name="gen_cb_next_line", path="processor/context/callback_context.py", cls="CallbackContext", func="__check_at_next_line",
+         params="(c_event c_file c_func event file function_name : str)", ret="bool", args=["self", "event", "file", "function_name"], env={"event": ("event", "str"), "file": ("file", "str"), "function_name": ("function_name", "str"), "line": ("line", "Z"), "frame": ("tt", "unit"), "self.__event": ("c_event", "str"), "self.__filename": ("c_file", "str"), "self.__function_name": ("c_func", "str")}),
+    dict(group="Callbacks", name="gen_cb_method_end", path="processor/context/callback_context.py", cls="CallbackContext", func="__check_at_method_end",
+         params="(event : str)", ret="bool", args=["self", "event"], env={"event": ("event", "str")}),
+    dict(group="Callbacks", name="gen_cb_at_location", path="processor/context/callback_context.py", cls="CallbackContext", func="at_location",
+         params="(c_event c_file c_func event file : str) (line : Z) (function_name : str)", ret="bool",
+         args=["self", "event", "file", "line", "function_name", "frame"], env={"event": ("event", "str"), "file": ("file", "str"), "function_name": ("function_name", "str"), "line": ("line", "Z"), "frame": ("tt", "unit"), "self.__event": ("c_event", "str"), "self.__filename": ("c_file", "str"), "self.__function_name": ("c_func", "str")},
+         calls={"self.__check_at_next_line": ("gen_cb_next_line c_event c_file c_func", ["str", "str", "str"], "bool"),
+                "self.__check_at_method_end": ("gen_cb_method_end", ["str"], "bool")}),
+    dict(group="Callbacks", name="gen_cb_body", path="processor/trigger_handler.py", cls="TriggerHandler", func="__process_call_backs",
+         params="(c_event c_file c_func event file : str) (line : Z) (function_name : str) (line_context_done : bool)", ret="verdict",
+         args=["self", "ctx", "arg", "frame", "event", "file", "line", "function_name"],
+         env={"event": ("event", "str"), "file": ("file", "str"), "function_name": ("function_name", "str"), "line": ("line", "Z"),
+              "frame": ("tt", "unit"), "context.event": ("c_event", "str")},
+         calls={"context.at_location": ("(fun e_ f_ l_ n_ (_ : unit) => gen_cb_at_location c_event c_file c_func e_ f_ l_ n_)", ["str", "str", "Z", "str", "unit"], "bool")},
+         noop_calls=["context.process", "self._callbacks.clear"],
+         loop=dict(stack="stack", stack_source="self._callbacks.value", top="context",
+                   flags={"line_context_done": ("line_context_done", "bool")}, flags_init={"line_context_done": False})),
     # ---- the tracepoint configuration service (C12)
     dict(group="Service", name="gen_update_no_change", path="config/tracepoint_config.py", cls="TracepointConfigService", func="update_no_change",
          params="(last_update ts : Z)", ret="Z", args=["self", "ts"], falls_off=True, env={"ts": ("ts", "Z")},
@@ -995,6 +1014,7 @@ GROUPS = {           # generated file -> (imports, which properties' theorems ar
     "Frames": ("From Deep Require Import Base PureSupport.", ["C19", "C02"]),
     "Store": ("From Deep Require Import Base Attrs PureSupport.", ["C18"]),
     "Service": ("From Deep Require Import Base ConfigSvc PureSupport.", ["C12", "C13"]),
+    "Callbacks": ("From Deep Require Import Base PureSupport.", ["C15"]),
 }
 HEADER = '''(* GENERATED by harness/translate/pure.py from /repo/src/deep - do not edit.
    Each definition is the statement-by-statement translation of one pure function of the agent. *)
@@ -1005,13 +1025,106 @@ Local Open Scope bool_scope.
 '''
 
 
+def translate_pop_loop(spec, fdef):
+    """A loop of the shape
+           <stack> = <declared>; <flag> = <constant> ...
+           while len(<stack>) > 0:
+               <top> = <stack>[-1]
+               ... if C: [logging]; break ... <stack>.pop() ... <declared no-op calls> ... <flag> = <constant> ...
+           [if len(<stack>) == 0: <declared no-op calls>]
+       is translated as its BODY: a function of the top entry and the flags to a verdict
+       (VStop | VPopStop | VPopContinue flags'); PureSupport.pop_loop is the loop over it."""
+    lp = spec["loop"]
+    fn = Fn(spec)
+    body = [b for b in fdef.body if not (isinstance(b, ast.Expr) and isinstance(b.value, ast.Constant))]
+    whiles = [i for i, b in enumerate(body) if isinstance(b, ast.While)]
+    if len(whiles) != 1:
+        raise Unsupported("expected exactly one while loop")
+    w = body[whiles[0]]
+    init = {}
+    for b in body[:whiles[0]]:
+        if isinstance(b, ast.Assign) and len(b.targets) == 1 and isinstance(b.targets[0], ast.Name):
+            n = b.targets[0].id
+            if n == lp["stack"] and dotted(b.value) == lp["stack_source"]:
+                continue
+            if n in lp["flags"] and isinstance(b.value, ast.Constant) and isinstance(b.value.value, bool):
+                init[n] = b.value.value
+                continue
+        raise Unsupported("statement before the loop")
+    if init != lp["flags_init"]:
+        raise Unsupported("initial flags %r" % (init,))
+    for b in body[whiles[0] + 1:]:
+        ok = isinstance(b, ast.If) and not b.orelse and isinstance(b.test, ast.Compare) and len(b.test.ops) == 1 \
+            and isinstance(b.test.ops[0], ast.Eq) and isinstance(b.test.left, ast.Call) and dotted(b.test.left.func) == "len" \
+            and dotted(b.test.left.args[0]) == lp["stack"] and isinstance(b.test.comparators[0], ast.Constant) and b.test.comparators[0].value == 0 \
+            and all(isinstance(x, ast.Expr) and isinstance(x.value, ast.Call) and ((dotted(x.value.func) or "").startswith("logging.")
+                                                                                     or dotted(x.value.func) in spec.get("noop_calls", [])) for x in b.body)
+        if not ok:
+            raise Unsupported("statement after the loop")
+    t = w.test
+    if not (isinstance(t, ast.Compare) and len(t.ops) == 1 and isinstance(t.ops[0], ast.Gt) and isinstance(t.left, ast.Call)
+            and dotted(t.left.func) == "len" and dotted(t.left.args[0]) == lp["stack"]
+            and isinstance(t.comparators[0], ast.Constant) and t.comparators[0].value == 0) or w.orelse:
+        raise Unsupported("loop test")
+    first = w.body[0]
+    tgt = first.target if isinstance(first, ast.AnnAssign) else (first.targets[0] if isinstance(first, ast.Assign) and len(first.targets) == 1 else None)
+    val = first.value if isinstance(first, (ast.AnnAssign, ast.Assign)) else None
+    if not (isinstance(tgt, ast.Name) and tgt.id == lp["top"] and isinstance(val, ast.Subscript) and dotted(val.value) == lp["stack"]
+            and isinstance(val.slice, ast.UnaryOp) and isinstance(val.slice.op, ast.USub) and isinstance(val.slice.operand, ast.Constant)
+            and val.slice.operand.value == 1):
+        raise Unsupported("the loop does not start by reading the top entry")
+    for n, (term, ty) in lp["flags"].items():
+        fn.env[n] = (term, ty)
+
+    def flags_term():
+        parts = [fn.env[n][0] for n in lp["flags"]]
+        return parts[0] if len(parts) == 1 else "(" + ", ".join(parts) + ")"
+
+    def go(stmts, popped):
+        if not stmts:
+            if not popped:
+                raise Unsupported("an iteration may end without popping and without break (the loop would not advance)")
+            return "(VPopContinue %s)" % flags_term()
+        st, rest = stmts[0], stmts[1:]
+        if isinstance(st, ast.Break):
+            return "VPopStop" if popped else "VStop"
+        if isinstance(st, ast.Expr) and isinstance(st.value, ast.Call):
+            pat = dotted(st.value.func)
+            if pat == lp["stack"] + ".pop" and not st.value.args and not st.value.keywords:
+                if popped:
+                    raise Unsupported("two pops in one iteration")
+                return go(rest, True)
+            if (pat or "").startswith("logging.") or pat in spec.get("noop_calls", []):
+                if pat in spec.get("noop_calls", []) and not popped:
+                    raise Unsupported("%s before the entry is popped" % pat)
+                return go(rest, popped)
+            raise Unsupported("call %s in the loop" % pat)
+        if isinstance(st, ast.Assign) and len(st.targets) == 1 and isinstance(st.targets[0], ast.Name) and st.targets[0].id in lp["flags"] \
+                and isinstance(st.value, ast.Constant) and isinstance(st.value.value, bool):
+            saved = dict(fn.env)
+            fn.env[st.targets[0].id] = ("true" if st.value.value else "false", "bool")
+            out = go(rest, popped)
+            fn.env = saved
+            return out
+        if isinstance(st, ast.If):
+            c, tc = fn.expr(st.test)
+            a = go(list(st.body) + list(rest), popped)
+            b = go(list(st.orelse) + list(rest), popped)
+            return "(if %s then %s else %s)" % (fn.truth(c, tc), a, b)
+        raise Unsupported("statement %s in the loop" % type(st).__name__)
+    return go(list(w.body[1:]), False), fn
+
+
 def translate(spec):
     fdef = find(spec["path"], spec["cls"], spec["func"])
     got_args = [a.arg for a in fdef.args.args]
     if got_args != spec["args"] or fdef.args.vararg or fdef.args.kwarg or fdef.args.kwonlyargs:
         raise Unsupported("parameters of %s are %s, expected %s" % (spec["func"], got_args, spec["args"]))
-    fn = Fn(spec)
-    body = fn.block(list(fdef.body))
+    if "loop" in spec:
+        body, fn = translate_pop_loop(spec, fdef)
+    else:
+        fn = Fn(spec)
+        body = fn.block(list(fdef.body))
     for a, b in spec.get("rewrite", {}).items():      # declared opaque sub-terms (not translated: see the tie lemma's statement)
         body = body.replace(a, b)
     text = "(* %s: %s%s, line %d *)\n" % (spec["path"], (spec["cls"] + "." if spec["cls"] else ""), spec["func"], fdef.lineno)
